@@ -32,9 +32,11 @@ const (
 	opJoin           // harness: wait until all other threads have finished
 	opOnce           // Once.Do while another thread runs the function
 	opBlocked        // blocked forever (nil channel etc.)
+	opAwait          // simulated environment: enabled when the predicate holds
+	opSpin           // a polling loop found nothing new: runs only when no thread with real work is enabled (fairness)
 )
 
-var opNames = map[opKind]string{opStart: "start", opYield: "step", opLock: "Lock", opRLock: "RLock", opWait: "WaitGroup.Wait", opSend: "chan send", opRecv: "chan recv", opSelect: "select", opQuiesce: "Quiesce", opJoin: "Join", opOnce: "Once.Do", opBlocked: "blocked forever"}
+var opNames = map[opKind]string{opStart: "start", opYield: "step", opLock: "Lock", opRLock: "RLock", opWait: "WaitGroup.Wait", opSend: "chan send", opRecv: "chan recv", opSelect: "select", opQuiesce: "Quiesce", opJoin: "Join", opOnce: "Once.Do", opBlocked: "blocked forever", opAwait: "await", opSpin: "spin"}
 
 type selCase struct {
 	send bool
@@ -53,6 +55,7 @@ type pendingOp struct {
 	cases  []selCase
 	hasDef bool
 	what   string // label for traces
+	pred   func() bool
 	pos    string
 	// rendezvous commitment made by a sender: this receiver must take case `committed`
 	committed int // -1 none; for opRecv 0; for opSelect the case index
@@ -259,6 +262,30 @@ func (wd *World) othersEnabled(self *Thread) bool {
 	return false
 }
 
+// othersWorking reports whether a thread other than self has real work: an
+// enabled operation that is not itself a spin, quiesce or join wait; with
+// spinners, a polling thread counts as well (it runs whenever nothing else can).
+func (wd *World) othersWorking(self *Thread, spinners bool) bool {
+	for _, t := range wd.threads {
+		if t == self || t.done {
+			continue
+		}
+		switch t.op.kind {
+		case opQuiesce, opJoin:
+			continue
+		case opSpin:
+			if spinners {
+				return true
+			}
+			continue
+		}
+		if wd.enabled(t) {
+			return true
+		}
+	}
+	return false
+}
+
 func (wd *World) enabled(t *Thread) bool {
 	if t.done {
 		return false
@@ -299,8 +326,10 @@ func (wd *World) enabled(t *Thread) bool {
 			}
 		}
 		return false
+	case opSpin:
+		return !wd.othersWorking(t, false)
 	case opQuiesce:
-		return !wd.othersEnabled(t)
+		return !wd.othersWorking(t, true)
 	case opJoin:
 		for _, o := range wd.threads {
 			if o != t && !o.done {
@@ -310,6 +339,8 @@ func (wd *World) enabled(t *Thread) bool {
 		return true
 	case opBlocked:
 		return false
+	case opAwait:
+		return op.pred()
 	}
 	return false
 }
@@ -576,6 +607,21 @@ func Run(ch Chooser, trace bool, maxSteps int, body func()) Result {
 
 // Quiesce blocks the calling (harness) thread until no other thread is enabled.
 func Quiesce() { yield(pendingOp{kind: opQuiesce}) }
+
+// Await blocks the calling thread until pred holds.  pred must read only state
+// that changes while some controlled thread holds the token (simulated
+// environment objects); it is evaluated by the scheduler.  If abort is in
+// progress it returns immediately.
+func Await(what string, pred func() bool) {
+	yield(pendingOp{kind: opAwait, what: what, pred: pred})
+}
+
+// Spin is called by simulated environment objects when a polling loop asked
+// again and nothing had changed: the caller runs on only when no thread with
+// real work is enabled (a fair scheduler lets the others make progress; the
+// skipped iterations are stutter steps).  A loop that polls forever therefore
+// runs into the step limit and is reported as a livelock.
+func Spin(what string) { yield(pendingOp{kind: opSpin, what: what}) }
 
 // Join blocks the calling thread until every other thread has finished.
 func Join() {
